@@ -1,12 +1,14 @@
 //! Correspondence stream `wakers` (C16): the waiter/notifier protocols that live in qbase, driven on the
 //! REAL objects, single-threaded, one method call per op, with counting wakers.
 //! CASE cfg: `<protocol id>`; ids: 1 SendWaker, 2 AsyncDeque, 3 ArcReceiving, 4 Wakers (WakerVec),
-//! 5 ArcParameters, 6 CidCell + SendWaker
+//! 5 ArcParameters, 6 CidCell + SendWaker, 17 Wakers::combine_with over a mock event source
 use std::future::Future;
 use std::pin::{Pin, pin};
 use std::task::Poll;
 
+use std::cell::{Cell, RefCell};
 use std::sync::Arc;
+use std::task::Waker;
 
 use hproto::{Obs, Op};
 use qbase::ArcReceiving;
@@ -41,7 +43,32 @@ struct CidCase {
     seq: u32,
 }
 
+/// what `UdpSocketController` wraps with `Wakers::combine_with`: a source with a readiness counter and ONE
+/// registration slot that is taken when the source fires (edge-triggered, as tokio's ScheduledIo)
+struct CombineCase {
+    wakers: Arc<Wakers>,
+    ready: Cell<u64>,
+    slot: RefCell<Option<Waker>>,
+    closed: Cell<bool>,
+}
+
+impl CombineCase {
+    /// the event source fires: whoever registered last (the combined waker) is woken
+    fn fire(&self) {
+        let w = self.slot.borrow_mut().take();
+        if let Some(w) = w {
+            w.wake();
+        }
+    }
+    /// UdpSocketController::poll_close
+    fn close(&self) {
+        self.wakers.wake_all();
+        self.closed.set(true);
+    }
+}
+
 enum Proto {
+    Combine(CombineCase),
     SendWaker(ArcSendWaker),
     Deque(ArcAsyncDeque<u64>),
     Receiving(ArcReceiving<u64>),
@@ -90,6 +117,12 @@ fn new_case(cfg: &[&str]) -> St {
             let cell = cids.apply_dcid();
             Proto::Cid(CidCase { cids, cell, sw: ArcSendWaker::new(), seq: 0 })
         }
+        17 => Proto::Combine(CombineCase {
+            wakers: Arc::new(Wakers::new()),
+            ready: Cell::new(0),
+            slot: RefCell::new(None),
+            closed: Cell::new(false),
+        }),
         _ => Proto::Unknown,
     };
     St { ws: Waiters::new(), p }
@@ -255,6 +288,60 @@ fn step(st: &mut St, op: &Op, _i: usize) -> Obs {
         }
         (Proto::Cid(c), 2, 0) => {
             c.cell.retire();
+            0
+        }
+        // ---------------- Wakers::combine_with: POLL w k = combine_with(cx_w, inner poll of kind k) on the shared source:
+        //                  k = 0 check readiness, else store the combined waker; 1 = throttled inner poll (wakes the
+        //                  waker it was given, Pending); 2 = as 0, and a datagram arrives right after the inner poll
+        //                  registered; 3 = as 0, and poll_close runs at that point /
+        //                  NOTIFY 0 = a datagram arrives (readiness + fire), 1 = spurious fire / CLOSE = poll_close
+        (Proto::Combine(c), 0, 2) => match (wid(op, 0), op.args[1]) {
+            (Some(_), 0..=3) if c.closed.get() => 2,
+            (Some(w), k @ 0..=3) => {
+                let c: &CombineCase = c;
+                let r = c.wakers.combine_with(&mut ws.cx(w), |cx| {
+                    if k == 1 {
+                        cx.waker().wake_by_ref();
+                        return Poll::Pending;
+                    }
+                    if c.ready.get() > 0 {
+                        c.ready.set(c.ready.get() - 1);
+                        return Poll::Ready(());
+                    }
+                    *c.slot.borrow_mut() = Some(cx.waker().clone());
+                    // the other thread's turn, between this registration and whatever combine_with does next
+                    if k == 2 {
+                        c.ready.set(c.ready.get() + 1);
+                        c.fire();
+                    } else if k == 3 {
+                        c.close();
+                    }
+                    Poll::Pending
+                });
+                match r {
+                    Poll::Pending => 0,
+                    Poll::Ready(()) => 1,
+                }
+            }
+            _ => SKIP,
+        },
+        (Proto::Combine(c), 1, 1) => match op.args[0] {
+            0 | 1 if c.closed.get() => 0,
+            0 => {
+                c.ready.set(c.ready.get() + 1);
+                c.fire();
+                0
+            }
+            1 => {
+                c.fire();
+                0
+            }
+            _ => SKIP,
+        },
+        (Proto::Combine(c), 2, 0) => {
+            if !c.closed.get() {
+                c.close();
+            }
             0
         }
         // ---------------- DROPW w: the task drops its future; no call into the object
